@@ -558,7 +558,7 @@ var propC06Sim = &simProp{
 	ID: "C06",
 	Profile: func() sim.Profile {
 		p := safetyProfile("C06")
-		p.Patterns = []string{"P1", "P1", "P12", "P12", "P8", "P3", "P4b", "free", "free", "P6", "P11", "P2"}
+		p.Patterns = []string{"P1", "P1", "P12", "P12", "P8", "P3", "P4b", "free", "free", "P6", "P11", "P2", "P22"}
 		return p
 	}(),
 	Owns: []string{"C06"},
